@@ -347,6 +347,17 @@ def dSchema (o : Opts) (S : Schema) (composeGroups : List (Text × List Text)) :
        else [])
   else [.schema false [] (some S.query) S.mutation none]
 
+/-- the query root as a federation export describes it: without the fields `_service` /
+    `_entities` (federation machinery every subgraph has, not part of the subgraph's own schema);
+    a root with nothing else is not described -/
+def dRoot (o : Opts) (q : Text) : TypeDef → Option TypeDef
+  | .object n a ext is fs =>
+    if o.federation && n = q then
+      (let fs' := fs.filter (fun f => !(f.name = kwT "_service") && !(f.name = kwT "_entities"))
+       if fs'.isEmpty then none else some (.object n a ext is fs'))
+    else some (.object n a ext is fs)
+  | t => some t
+
 def builtinDirectiveNames : List Text := ["skip", "include", "deprecated", "specifiedBy", "oneOf"].map String.toList
 
 def federationTypeNames : List Text := ["_Any", "_Entity", "_Service"].map String.toList
@@ -357,14 +368,16 @@ def startsDunder : Text → Bool
 
 /-- The type-system document required for schema `S` under options `o`: every named type in name
     order (built-in scalars and introspection types are never defined; a federation export leaves
-    the federation machinery out), every registered directive definition in name order — the
+    the federation machinery out: the types `_Any` / `_Entity` / `_Service` and the root fields
+    `_service` / `_entities`), every registered directive definition in name order — the
     built-in directives (§3.13: may be omitted) only as far as listed in `present` —, then the
     schema definition.  `registered` is the registry's directive table, `groups` the composable
     directives by URL (`linkGroups registered` in some order). -/
 def describe (o : Opts) (S : Schema) (registered : List DirDef) (groups : List (Text × List Text))
     (present : List Text) : List SDef :=
   ((sorted true TypeDef.name S.types).filter
-      (fun t => !startsDunder t.name && !(o.federation && (federationTypeNames.contains t.name || t.name = kwT "Any")))).filterMap (dType o) ++
+      (fun t => !startsDunder t.name && !(o.federation && federationTypeNames.contains t.name))).filterMap
+        (fun t => (dRoot o S.query t).bind (dType o)) ++
   ((sorted true (·.name) registered).filter
       (fun d => !builtinDirectiveNames.contains d.name || present.contains d.name)).map dDirective ++
   dSchema o S groups
